@@ -8,8 +8,9 @@
 (*   args     names of the argument values                                 *)
 (*   outcome  "results" | "error" | "fault"                                *)
 (*   invoked  the Go function ran                                          *)
-(*   recv     what arrived for numeric arguments: [i, exact, v] (exact:    *)
-(*            the harness could express it as twice-the-value integer)     *)
+(*   recv     what arrived for numeric arguments: [i, exact, v, same]      *)
+(*            (exact: the harness could express it as twice-the-value      *)
+(*            integer; same: converted back it equals the argument)        *)
 (*   shape    "single" | "list" | "none";  ret: [t, v] per returned value  *)
 (*   outs     [v] twice the value of each numeric Go result                *)
 (*   errtext  the error has a text                                         *)
@@ -38,7 +39,8 @@ RecvOK(r) ==
     LET x == r.recv[k]
         pk == IF x.i <= Len(r.sig.params) THEN r.sig.params[x.i] ELSE r.sig.params[Len(r.sig.params)]
         e == Received(pk, r.args[x.i])
-    IN e.exact => (x.exact /\ x.v = e.v)
+    IN /\ e.exact => (x.exact /\ x.v = e.v)
+       /\ (r.args[x.i] \in HugeNums /\ HugeFits(pk, r.args[x.i])) => x.same
 
 RetOK(r) ==
   LET n == Len(r.sig.results) IN
